@@ -447,15 +447,18 @@ func newH(rt *rapid.T, c *stats.Case) *H { return newHOn(rt, c, "") }
 // newHOn: liveBase != "" puts the live store there (the tiny tmpfs of the ENOSPC sub-check);
 // images are always materialised under the scratch root.
 func newHOn(rt *rapid.T, c *stats.Case, liveBase string) *H {
-	h := &H{rt: rt, c: c, root: scratchRoot(), view: newView(), enumerate: true}
+	// every draw before the scratch directory exists: a draw may abort the case (rapid does that while
+	// shrinking), and until the caller has deferred cleanup() nothing would remove the directory
+	phase := rapid.IntRange(0, 7).Draw(rt, "phase")
+	h := &H{rt: rt, c: c, root: scratchRoot(), view: newView(), enumerate: true, phase: phase}
 	h.base = filepath.Join(h.root, "live0")
 	if liveBase != "" {
 		h.base, h.external = liveBase, true
 	}
 	h.im = &imager{base: filepath.Join(h.root, "img")}
-	h.phase = rapid.IntRange(0, 7).Draw(rt, "phase")
 	st, err := openStore(h.base)
 	if err != nil {
+		_ = os.RemoveAll(h.root)
 		c.Violation("open-error", "opening a store on an empty directory failed: %v", err)
 	}
 	h.st = st
@@ -1129,10 +1132,11 @@ func TestPropBlockStraddle(t *testing.T) {
 			switch {
 			case gotGap < 0:
 				c.Label("gap:overshot")
-			case gotGap < 7:
-				c.Label("gap:0-6(pad,no header)")
+			case gotGap == 0:
+				// also reached when fewer than 11 bytes would remain: Pebble's writer zero-pads to the boundary at once
+				c.Label("gap:0(file ends on the block boundary)")
 			case gotGap < 11:
-				c.Label("gap:7-10(pad)")
+				c.Label("gap:1-10")
 			case gotGap < 19:
 				c.Label("gap:11-18")
 			case gotGap <= 40:
